@@ -670,11 +670,13 @@ class Prefix(metaclass=_Interned):
         name: Optional[str] = None,
         symbol: Optional[str] = None,
     ) -> "Prefix":
+        existing: Optional[Prefix]
         if base != 0 and exponent == 0:
-            return IdentityPrefix
-
-        key = (base, exponent)
-        existing = cls._known.get(key)
+            # any base to the power of zero is the identity prefix
+            existing = IdentityPrefix
+        else:
+            key = (base, exponent)
+            existing = cls._known.get(key)
 
         if name and cls._by_name.get(name, existing) is not existing:
             raise ValueError(f"A prefix named {name} is already defined")
